@@ -4,7 +4,7 @@
 # in "caught_by" is applied to a scratch copy of /repo (outside /repo and /verif), the check is run against the
 # copy, and it must exit 1 reporting an obligation whose key starts with the recorded "expect_key".
 # A miss is a defect of the checker, not a violation of /repo: it is reported as CHECKER-DEFECT and makes the
-# script exit 2. Then every behaviour-preserving refactoring under benign/<Cxx>-[rst]*/ is applied the same way and the
+# script exit 2. Then every behaviour-preserving refactoring under benign/<Cxx>-[rstu]*/ is applied the same way and the
 # check must stay silent. Scratch copies are removed immediately.
 cd "$(dirname "$0")"
 prop="$1"
@@ -40,10 +40,10 @@ PY
   rm -rf "$base" "$base.sel"
 done
 echo "selftest: $n seeded change(s) exercised for $prop"
-# the other direction: behaviour-preserving refactorings of the code this property is about (benign/<Cxx>-[rst]*/)
+# the other direction: behaviour-preserving refactorings of the code this property is about (benign/<Cxx>-[rstu]*/)
 # must leave the check silent; an alarm on one of them is a false alarm, i.e. a checker defect as well
 nb=0
-for dir in benign/"$prop"-[rst]*/; do
+for dir in benign/"$prop"-[rstu]*/; do
   [ -f "$dir/patch.diff" ] || continue
   if [ -f "$dir/KNOWN-ALARM" ]; then
     echo "selftest: $dir is a recorded sensitivity of the checker (see its KNOWN-ALARM), not exercised"
